@@ -1,6 +1,6 @@
 (* C02 Parsing recovers exactly the components of any legal spelling *)
 Load "coq/props/Hdr".
-From PM Require Import C02 Quals Exec CsRef.
+From PM Require Import C02 Lang Quals Exec CsRef.
 Lemma src_cfg_ok : cfg_ok cfg. Proof. sc. Qed.
 (* right-to-left splitting at '#', '?', '@' is what the property's statement fixes *)
 Lemma src_dirs : dir_sub cfg = true /\ dir_qual cfg = true /\ dir_ver cfg = true. Proof. vm_compute. auto. Qed.
@@ -24,6 +24,12 @@ Print Assumptions C02_same_typed.
 Theorem C02_only_skeletons : forall s x, parse cfg G s = Ok x -> exists r, WFr cfg r /\ s = asm r /\ checks cfg G r = Ok x.
 Proof. intros s x. apply parse_sound. Qed.
 Print Assumptions C02_only_skeletons.
+(* ... and every such skeleton is a legal spelling in the sense above: the accepted language is exactly the set of legal spellings whose
+   type converts and whose components build.  Nothing outside the documented spelling freedom is accepted, for any type parameter. *)
+Theorem C02_accepted_language_exactly : forall (T E : Type) (sh : shape T E) s x, parse cfg sh s = Ok x <->
+  exists sp, spelling_ok cfg sp /\ s = asm (raw_of sp) /\ (t <- sh_from_str sh (sp_ty sp) ;; build cfg sh t (parts_of sp)) = Ok x.
+Proof. intros T E sh. apply (accepted_iff cfg src_cfg_ok); sc. Qed.
+Print Assumptions C02_accepted_language_exactly.
 (* the checksum value may be spelled with its entries in any order and its hex digits in any case: the built PURL is the same *)
 Theorem C02_checksum_spelling_freedom : forall t p v1 v2 m1 m2, QInv cfg (p_quals p) -> q_get cfg (p_quals p) s_checksum = Some v1 -> v1 <> [] -> v2 <> [] ->
   cs_try_from cfg v1 = Ok m1 -> cs_try_from cfg v2 = Ok m2 -> NoDup (map fst m1) -> Permutation.Permutation (map norm m1) (map norm m2) ->
